@@ -201,6 +201,13 @@ pub struct Run {
     pub model_exact: bool,
     /// Model state/log right before the last `Reject` op (for C06).
     pub last_err: Option<String>,
+    /// Exclude the known class "re-append with a lower term than an earlier entry while the
+    /// cache is limited" by construction: such appends get the highest term seen instead.
+    pub avoid_low_reappend: bool,
+    pub excluded: u64,
+    /// Set once an index of u64::MAX has been handed to the store (C16 class).
+    pub saw_index_max: bool,
+    pub max_id_seen: Option<LogId>,
 }
 
 fn seg_pair(s: &Segment) -> (u64, u64) {
@@ -269,6 +276,10 @@ impl Run {
             old_workers: vec![],
             model_exact: true,
             last_err: None,
+            avoid_low_reappend: false,
+            excluded: 0,
+            saw_index_max: false,
+            max_id_seen: None,
         };
         r.open_store(cfg).map_err(|e| Fail::new("open-fresh", format!("open of a fresh directory failed: {e}")))?;
         Ok(r)
@@ -389,20 +400,6 @@ impl Run {
         st
     }
 
-    fn journal(&mut self, rec: &Rec) -> Option<(u64, u64)> {
-        let n = self.model.records.len();
-        let st = self.model.st().clone();
-        let cfg = self.cfg.clone();
-        self.layout.as_mut().map(|l| {
-            let before = l.chunks.len();
-            let r = l.on_record(rec, &cfg, &st, n);
-            if l.chunks.len() > before {
-                self.classes.hit("rotation");
-            }
-            r
-        })
-    }
-
     fn after_caller_op(&mut self) {
         if self.stepped && self.inst.is_some() {
             self.ops_since_idle += 1;
@@ -455,7 +452,6 @@ impl Run {
     }
 
     fn exec_inner(&mut self, op: &OpSpec) -> Result<Done, Fail> {
-        let _ = self.journal_noop();
         match op {
             OpSpec::Vote { bump, node } => {
                 let cur = self.model.st().vote.unwrap_or((0, 0));
@@ -493,10 +489,22 @@ impl Run {
                         },
                     ),
                 };
-                let t = match term {
+                let mut t = match term {
                     TermSel::Same => t0,
                     TermSel::Bump(k) => t0 + *k as u64,
                 };
+                // Known class (C07): an entry whose log id is <= an id appended earlier can
+                // fall at or below the eviction boundary although it is not yet on disk.
+                if let Some(hi) = self.max_id_seen {
+                    if (t, i0) <= hi {
+                        if self.avoid_low_reappend {
+                            t = hi.0 + 1;
+                            self.excluded += 1;
+                        } else {
+                            self.classes.hit("reappend_at_or_below_earlier_id");
+                        }
+                    }
+                }
                 if last.is_none() && i0 != 0 {
                     self.classes.hit("first_index_nonzero");
                 }
@@ -512,6 +520,9 @@ impl Run {
                     let p = payload(t, i0 + k, *pay, k);
                     self.model.append_one(id, p.clone()).expect("resolved append is legal");
                     self.note_term(t);
+                    if Some(id) > self.max_id_seen {
+                        self.max_id_seen = Some(id);
+                    }
                     recs.push(Rec::Append(id, p.clone()));
                     entries.push((id, p));
                 }
@@ -635,10 +646,6 @@ impl Run {
             OpSpec::Probe(p) => self.exec_probe(p),
             OpSpec::Readers { .. } | OpSpec::DropReopen { .. } => Ok(Done::Skipped),
         }
-    }
-
-    fn journal_noop(&mut self) -> Option<()> {
-        None
     }
 
     fn max_term_seen(&self) -> Option<u64> {
